@@ -88,6 +88,7 @@ import (
 	"bytes"
 	"context"
 	"fmt"
+	"runtime"
 	"strconv"
 	"strings"
 	"sync"
@@ -109,6 +110,9 @@ type Step struct {
 	//   reset   (HTTP) hijack the connection and close it; Code 1 = RST, 0 = FIN
 	//   slow    wait DelayMS, then answer with Code (unless the client left)
 	//   hold    keep the request until the client goes away, never answer
+	//   proxy_temporary_error / proxy_permanent_error (HTTP): the attempt fails on the client
+	//           side, inside http.Client.Do, with an error whose Temporary() is true (Timeout()
+	//           false) / false; injected through the exporter's WithProxy option
 	Kind        string `json:"kind"`
 	Code        int    `json:"code"`                  // HTTP status or gRPC code
 	RetryAfter  string `json:"retry_after,omitempty"` // HTTP header value, "" = absent
@@ -135,6 +139,13 @@ type Case struct {
 	PlanDelayMS int    `json:"plan_delay_ms"`         // pause between the trigger and cancel()/Shutdown()
 	ShutdownMS  int    `json:"shutdown_ms,omitempty"` // deadline of the context handed to Shutdown (0 = 50 ms)
 	Items       int    `json:"items"`                 // spans / metrics / records in the payload
+	// Headers: number of key/value pairs configured with WithHeaders (0 = option not passed).
+	Headers int `json:"headers,omitempty"`
+	// Interfere > 0: when answer InterfereK (a retryable one) has been given, i.e. while the
+	// case's export waits for its retry, that many exports of a DIFFERENT payload are made
+	// through a second exporter instance of the same kind and options to the same collector.
+	Interfere  int `json:"interfere,omitempty"`
+	InterfereK int `json:"interfere_k,omitempty"`
 }
 
 const (
@@ -360,9 +371,9 @@ func (g *genCtx) innerStep(t *rapid.T) Step {
 	if g.allowHold {
 		hold = 30
 	}
-	reset := 8
+	reset, proxyTemp, proxyPerm := 8, 9, 3
 	if g.grpc {
-		reset = 0
+		reset, proxyTemp, proxyPerm = 0, 0, 0
 	}
 	slow, long, slowRetryable := 12, 4, 2
 	if g.slowBias {
@@ -372,7 +383,7 @@ func (g *genCtx) innerStep(t *rapid.T) Step {
 			slow = 15
 		}
 	}
-	switch pick(t, "inner", 60, 12, slow, reset, hold, 4) {
+	switch pick(t, "inner", 60, 12, slow, reset, hold, 4, proxyTemp, proxyPerm) {
 	case 0:
 		return g.retryableStep(t)
 	case 1:
@@ -392,6 +403,10 @@ func (g *genCtx) innerStep(t *rapid.T) Step {
 		return Step{Kind: "reset", Code: rng(t, "rst", 0, 1), RetryInfoMS: -1}
 	case 4:
 		return Step{Kind: "hold", RetryInfoMS: -1}
+	case 6:
+		return Step{Kind: "proxy_temporary_error", RetryInfoMS: -1}
+	case 7:
+		return Step{Kind: "proxy_permanent_error", RetryInfoMS: -1}
 	default:
 		return g.terminalStep(t)
 	}
@@ -407,6 +422,7 @@ func genCase(isGRPC bool) func(*rapid.T) Case {
 		}
 		c.Items = rng(t, "items", 1, 3)
 		c.Gzip = rng(t, "gzip", 0, 2) == 0
+		c.Headers = oneOf(t, "headers", 0, 1, 2)
 		g := &genCtx{grpc: isGRPC, longHints: 2, longSlow: 1}
 		if !isGRPC {
 			g.hinted = rng(t, "hinted", 0, 15) == 0
@@ -416,7 +432,7 @@ func genCase(isGRPC bool) func(*rapid.T) Case {
 			c.RetryEnabled, c.InitialMS, c.MaxIntervalMS = true, 1, 5
 			c.MaxElapsedMS = oneOf(t, "max_elapsed_ms", elapsed...)
 		}
-		scenario := pick(t, "scenario", 46, 10, 4, 10, 16, 14, 8)
+		scenario := pick(t, "scenario", 46, 10, 4, 10, 16, 14, 8, 8)
 		switch scenario {
 		case 0: // plain
 			if rng(t, "retry_disabled", 0, 6) == 0 {
@@ -474,6 +490,13 @@ func genCase(isGRPC bool) func(*rapid.T) Case {
 				fast(0, 5000)
 				c.TimeoutMS = oneOf(t, "timeout_ms", 0, 30000)
 			}
+		case 7:
+			// an interfering export through a second exporter instance while
+			// the case's export waits (200..600 ms) for its retry
+			c.RetryEnabled, c.InitialMS, c.MaxIntervalMS = true, 400, 400
+			c.MaxElapsedMS = oneOf(t, "max_elapsed_ms", 0, 5000)
+			c.Gzip = rng(t, "gzip", 0, 2) > 0
+			c.Interfere = oneOf(t, "interfere", 1, 2)
 		default:
 			c.Plan = "shutdown_in_wait"
 			if rapid.Bool().Draw(t, "slow_backoff") {
@@ -506,6 +529,15 @@ func genCase(isGRPC bool) func(*rapid.T) Case {
 			}
 			c.PlanK = rng(t, "plan_k", 0, maxK)
 		}
+		if c.Interfere > 0 {
+			if n < 2 {
+				n = 2
+			}
+			c.InterfereK = rng(t, "interfere_k", 0, 1)
+			if c.InterfereK > n-2 {
+				c.InterfereK = n - 2
+			}
+		}
 		for i := 0; i < n; i++ {
 			var st Step
 			planned := c.Plan != "none" && c.Plan != "pre_cancelled"
@@ -527,6 +559,11 @@ func genCase(isGRPC bool) func(*rapid.T) Case {
 				if isGRPC && !slowBackoff && rapid.Bool().Draw(t, "long_wait") {
 					st.RetryInfoMS = 300 // makes the wait long enough for the plan to land inside it
 				}
+			case c.Interfere > 0 && i <= c.InterfereK:
+				st = g.retryableStep(t)
+				if st.RetryInfoMS > 30 {
+					st.RetryInfoMS = 30
+				}
 			case i == n-1:
 				st = g.terminalStep(t)
 			default:
@@ -542,7 +579,7 @@ func genCase(isGRPC bool) func(*rapid.T) Case {
 		// delay, MaxElapsedTime is 500 ms. After the second answer the elapsed
 		// time plus the hint exceeds the budget: the exporter has to give up
 		// instead of sleeping through the hint and sending a third attempt.
-		if isGRPC && c.Plan == "none" && c.RetryEnabled && c.TimeoutMS == 0 && rng(t, "hint_budget", 0, 7) == 0 {
+		if isGRPC && c.Plan == "none" && c.Interfere == 0 && c.RetryEnabled && c.TimeoutMS == 0 && rng(t, "hint_budget", 0, 7) == 0 {
 			c.InitialMS, c.MaxIntervalMS, c.MaxElapsedMS = 1, 5, 500
 			k := rng(t, "hint_budget_len", 2, 4)
 			c.Script = nil
@@ -554,7 +591,7 @@ func genCase(isGRPC bool) func(*rapid.T) Case {
 		}
 		// something must follow the planned attempt, and every script ends in a terminal answer
 		last := c.Script[len(c.Script)-1]
-		if last.Kind == "hold" || last.Kind == "reset" || last.Kind == "slow" || (last.Kind == "status" && stepRetryable(isGRPC, last)) {
+		if last.Kind != "status" && last.Kind != "partial" || (last.Kind == "status" && stepRetryable(isGRPC, last)) {
 			c.Script = append(c.Script, g.terminalStep(t))
 		}
 		return c
@@ -564,6 +601,9 @@ func genCase(isGRPC bool) func(*rapid.T) Case {
 // stepRetryable: would the ANSWER of this step, if sent, be retryable per the
 // statement's table?
 func stepRetryable(isGRPC bool, st Step) bool {
+	if st.Kind == "proxy_temporary_error" {
+		return !isGRPC
+	}
 	if st.Kind != "status" && st.Kind != "slow" {
 		return false
 	}
@@ -591,6 +631,10 @@ func finite(c Case) bool {
 				return false
 			}
 		case "status", "partial", "reset", "slow":
+		case "proxy_temporary_error", "proxy_permanent_error":
+			if exporters[c.Exporter].grpc {
+				return false
+			}
 		default:
 			return false
 		}
@@ -616,7 +660,10 @@ func finite(c Case) bool {
 	default:
 		return false
 	}
-	if c.ShutdownMS < 0 || c.ShutdownMS > 2000 {
+	if c.ShutdownMS < 0 || c.ShutdownMS > 2000 || c.Headers < 0 || c.Headers > 2 {
+		return false
+	}
+	if c.Interfere != 0 && (c.Interfere < 0 || c.Interfere > 2 || c.Plan != "none" || c.InterfereK < 0 || c.InterfereK >= len(c.Script)) {
 		return false
 	}
 	return c.PlanDelayMS >= 0 && c.PlanDelayMS <= 100
@@ -637,6 +684,14 @@ func bounded(d time.Duration, f func()) bool {
 		return false
 	}
 }
+
+const (
+	markMain  = "main" // item names of the case's own payload start with this
+	markOther = "intf" // ... of the interfering exporter's payload with this (same length)
+)
+
+// caseHeaders are the pairs configured with WithHeaders (first Case.Headers of them).
+var caseHeaders = [][2]string{{"x-c14-h1", "alpha"}, {"x-c14-h2", "beta-2"}}
 
 func shutdownDeadline(c Case) time.Duration {
 	if c.ShutdownMS > 0 {
@@ -687,6 +742,8 @@ type observation struct {
 	shutdownCalledAt time.Duration // moment Shutdown() was called, -1 = never
 	abortOverrun     bool          // abort plan: Export was not back abortSlack after Shutdown's deadline
 	cleanupStuck     bool          // closing the collector / the final Shutdown did not finish in time (harness side)
+	interf           []entry       // requests of the interfering exporter
+	interfErrs       []error       // results of the interfering exports
 	planFired        bool
 	handled          []string
 	tag              string
@@ -714,11 +771,40 @@ func execute(c Case) (ob observation) {
 	}
 	rc := retryCfg{Enabled: c.RetryEnabled, Initial: time.Duration(c.InitialMS) * time.Millisecond,
 		MaxInterval: time.Duration(c.MaxIntervalMS) * time.Millisecond, MaxElapsed: time.Duration(c.MaxElapsedMS) * time.Millisecond}
-	h, err := newHandle(c.Exporter, addr, rc, time.Duration(c.TimeoutMS)*time.Millisecond, c.Gzip, c.Items)
+	opts := handleOpts{rc: rc, timeout: time.Duration(c.TimeoutMS) * time.Millisecond, gz: c.Gzip, items: c.Items, mark: markMain}
+	if c.Headers > 0 {
+		opts.headers = map[string]string{}
+		for _, kv := range caseHeaders[:c.Headers] {
+			opts.headers[kv[0]] = kv[1]
+		}
+		col.wantHeaders = opts.headers
+	}
+	for _, st := range c.Script {
+		if st.Kind == "proxy_temporary_error" || st.Kind == "proxy_permanent_error" {
+			opts.proxy = col.proxy
+		}
+	}
+	h, err := newHandle(c.Exporter, addr, opts)
 	if err != nil {
 		stop()
 		ob.setupErr = err
 		return ob
+	}
+	var other handle
+	if c.Interfere > 0 {
+		// same kind, same options (gzip, retry, timeout, headers); a role header
+		// lets the collector keep its requests apart; different payload
+		o2 := opts
+		o2.mark, o2.proxy = markOther, nil
+		o2.headers = map[string]string{roleHeader: "interferer"}
+		for k, v := range opts.headers {
+			o2.headers[k] = v
+		}
+		if other, err = newHandle(c.Exporter, addr, o2); err != nil {
+			stop()
+			ob.setupErr = err
+			return ob
+		}
 	}
 	ctx, cancel := context.WithCancel(context.Background())
 
@@ -764,6 +850,24 @@ func execute(c Case) (ob observation) {
 		mu.Lock()
 		ob.shutdownAt = t
 		mu.Unlock()
+	}
+	if c.Interfere > 0 {
+		var ionce sync.Once
+		col.onRespond = func(step int) {
+			if step != c.InterfereK {
+				return
+			}
+			ionce.Do(func() {
+				for i := 0; i < c.Interfere; i++ {
+					ictx, ic := context.WithTimeout(context.Background(), 5*time.Second)
+					err := other.export(ictx)
+					ic()
+					mu.Lock()
+					ob.interfErrs = append(ob.interfErrs, err)
+					mu.Unlock()
+				}
+			})
+		}
 	}
 	switch c.Plan {
 	case "pre_cancelled":
@@ -868,6 +972,13 @@ func execute(c Case) (ob observation) {
 			_ = h.shutdown(sctx)
 			sc()
 		})
+		if other.shutdown != nil {
+			bounded(5*time.Second, func() {
+				sctx, sc := context.WithTimeout(context.Background(), 2*time.Second)
+				_ = other.shutdown(sctx)
+				sc()
+			})
+		}
 		ob.cleanupStuck = !bounded(15*time.Second, stop) || ob.cleanupStuck
 	} else {
 		// give up on the blocked call (the case is a violation anyway):
@@ -885,6 +996,7 @@ func execute(c Case) (ob observation) {
 	mu.Lock()
 	defer mu.Unlock()
 	ob.entries = col.snapshot()
+	ob.interf = col.interferers()
 	ob.handled = handledWith(ob.tag)
 	return ob
 }
@@ -958,6 +1070,29 @@ func evaluate(c Case, ob observation) []vk.Violation {
 	maxElapsed := time.Duration(c.MaxElapsedMS) * time.Millisecond
 	oneBackoff := time.Duration(c.MaxIntervalMS) * time.Millisecond * 3 / 2
 
+	// the first attempt whose payload reached the collector is the reference
+	ref := -1
+	for i, e := range es {
+		if e.BodySet && e.BodyErr == "" {
+			ref = i
+			break
+		}
+	}
+	// the interfering exports: each succeeded and arrived intact, as its own payload
+	for i, err := range ob.interfErrs {
+		if err != nil {
+			bad("interfering_export_failed", "interfering export %d through a second exporter instance returned %v (the collector answers it with success)", i, err)
+		}
+	}
+	if ob.returned && len(ob.interf) != len(ob.interfErrs) {
+		bad("interfering_export_lost", "%d interfering exports were made, the collector received %d of them", len(ob.interfErrs), len(ob.interf))
+	}
+	for i, e := range ob.interf {
+		if n, err := payloadItems(ex.signal, e.Body); e.BodyErr != "" || err != nil || n != c.Items || !payloadMarked(ex.signal, e.Body, markOther) {
+			names, _ := payloadNames(ex.signal, e.Body)
+			bad("interfering_export_corrupted", "interfering export %d arrived as %d items %q (read error %q, decode error %v), exported %d items named %s-...", i, n, names, e.BodyErr, err, c.Items, markOther)
+		}
+	}
 	for i, e := range es {
 		if !e.BodySet {
 			// the handler was still reading the request when the log was taken
@@ -971,6 +1106,12 @@ func evaluate(c Case, ob observation) []vk.Violation {
 			bad("empty_payload", "attempt %d carried an empty payload", i)
 		} else if n, err := payloadItems(ex.signal, e.Body); err != nil || n != c.Items {
 			bad("payload_undecodable", "attempt %d: payload decodes to %d items (err %v), exported %d", i, n, err, c.Items)
+		} else if !payloadMarked(ex.signal, e.Body, markMain) {
+			names, _ := payloadNames(ex.signal, e.Body)
+			bad("payload_not_the_exported_one", "attempt %d carries items %q, the export was given items named %s-...", i, names, markMain)
+		}
+		if e.HeaderMiss != "" {
+			bad("configured_header_missing", "attempt %d did not carry the header %q configured with WithHeaders", i, e.HeaderMiss)
 		}
 		if c.Plan == "pre_cancelled" {
 			bad("attempt_after_cancel", "attempt %d was sent although the context was cancelled before the call", i)
@@ -990,12 +1131,14 @@ func evaluate(c Case, ob observation) []vk.Violation {
 			bad("retry_after_success", "attempt %d follows a success (%s)", i, prev.Desc)
 		case prev.Outcome == oNonRetryable:
 			bad("retry_after_nonretryable", "attempt %d follows a non-retryable answer (%s)", i, prev.Desc)
+		case prev.Outcome == oPermNetErr:
+			bad("retry_after_nonretryable", "attempt %d follows a network error that is not temporary (%s)", i, prev.Desc)
 		}
 		if !c.RetryEnabled {
 			bad("retry_while_disabled", "attempt %d although retrying is disabled", i)
 		}
-		if e.BodySet && es[0].BodySet && !bytes.Equal(e.Body, es[0].Body) && e.BodyErr == "" && es[0].BodyErr == "" {
-			bad("payload_differs", "attempt %d payload (%d bytes) differs from attempt 0 (%d bytes)", i, len(e.Body), len(es[0].Body))
+		if ref >= 0 && ref < i && e.BodySet && e.BodyErr == "" && !bytes.Equal(e.Body, es[ref].Body) {
+			bad("payload_differs", "attempt %d payload (%d bytes) differs from attempt %d (%d bytes)", i, len(e.Body), ref, len(es[ref].Body))
 		}
 		if prev.Outcome == oRetryable && prev.Hint > 0 && sawAnswer {
 			if gap := e.Arrive - prev.RespAt; gap < prev.Hint {
@@ -1036,6 +1179,20 @@ func evaluate(c Case, ob observation) []vk.Violation {
 	if len(es) > 0 {
 		last = &es[len(es)-1]
 	}
+	// With a short per-request timeout (HTTP) the collector's log order is not
+	// the client's order: the request of an attempt the client has already
+	// timed out on may be served (and logged) late, even after the attempt
+	// that ended the export. The "final answer" is then the last success in
+	// the log rather than the last entry.
+	orderReliable := ex.grpc || !shortTO
+	if !orderReliable && ob.err == nil {
+		for i := len(es) - 1; i >= 0; i-- {
+			if es[i].Outcome == oSuccess || es[i].Outcome == oPartial {
+				last = &es[i]
+				break
+			}
+		}
+	}
 	lastOK := last != nil && (last.Outcome == oSuccess || last.Outcome == oPartial)
 	if ob.err == nil && !lastOK {
 		bad("nil_result_without_success", "Export returned nil but the last answer was not a success")
@@ -1046,6 +1203,9 @@ func evaluate(c Case, ob observation) []vk.Violation {
 	if last != nil && last.Outcome == oRetryable && c.RetryEnabled && c.MaxElapsedMS == 0 && undisturbed {
 		bad("no_retry_after_retryable", "Export gave up (%v) after a retryable answer (%s) with retrying enabled and no time limit", ob.err, last.Desc)
 	}
+	if last != nil && last.Outcome == oTempNetErr && c.RetryEnabled && c.MaxElapsedMS == 0 && undisturbed {
+		bad("no_retry_after_temporary_network_error", "Export gave up (%v) after a temporary network error (%s) with retrying enabled and no time limit", ob.err, last.Desc)
+	}
 	// partial success reporting
 	want := ""
 	var rejected int64
@@ -1054,7 +1214,7 @@ func evaluate(c Case, ob observation) []vk.Violation {
 		rejected = c.Script[last.Step].Rejected
 	}
 	switch {
-	case want != "" && ob.err == nil:
+	case want != "" && ob.err == nil && orderReliable:
 		if len(ob.handled) == 0 {
 			bad("partial_success_not_reported", "no error reached the error handler for the partial success %q", want)
 		} else if len(ob.handled) > 1 {
@@ -1065,6 +1225,19 @@ func evaluate(c Case, ob observation) []vk.Violation {
 	case want != "":
 		if len(ob.handled) > 1 {
 			bad("partial_success_reported_twice", "%d errors reached the error handler: %q", len(ob.handled), ob.handled)
+		}
+	case len(ob.handled) > 0 && !orderReliable:
+		// accepted if some partial-success answer in the log explains every report
+		for _, h := range ob.handled {
+			explained := false
+			for _, e := range es {
+				if e.Outcome == oPartial && strings.Contains(h, fmt.Sprintf("%s-k%d rejected", ob.tag, e.Step)) {
+					explained = true
+				}
+			}
+			if !explained {
+				bad("spurious_partial_success_report", "the error handler received %q, no partial-success answer explains it", h)
+			}
 		}
 	case len(ob.handled) > 0:
 		bad("spurious_partial_success_report", "the error handler received %q without a partial-success answer being the final one", ob.handled)
@@ -1121,6 +1294,9 @@ func classify(c Case, ob observation) vk.Info {
 		info.Class(fmt.Sprintf("retry=fast,max_elapsed=%dms", c.MaxElapsedMS))
 	}
 	info.ClassIf(c.Gzip, "gzip")
+	info.Class(fmt.Sprintf("headers=%d", c.Headers))
+	info.ClassIf(c.Interfere > 0, fmt.Sprintf("interfering_exports=%d(received %d)", c.Interfere, len(ob.interf)))
+	info.ClassIf(c.Interfere > 0 && c.Gzip, "interfering_export_with_gzip")
 	info.ClassIf(c.TimeoutMS > 0 && c.TimeoutMS <= shortTimeout, "short_timeout")
 	nontrivial := false
 	for i, st := range c.Script {
@@ -1159,6 +1335,7 @@ func classify(c Case, ob observation) vk.Info {
 		info.ClassIf(l.Outcome == oSuccess && ob.err == nil && len(es) > 1, "success_after_retries")
 		info.ClassIf(l.Outcome == oNonRetryable && len(es) > 1, "terminal_failure_after_retries")
 		info.ClassIf((l.Outcome == oNetErr || l.Outcome == oAbandoned) && ob.err != nil, "ended_on_network_failure")
+		info.ClassIf(l.Outcome == oPermNetErr && ob.err != nil, c.Exporter+":gave_up_on_permanent_network_error")
 	}
 	if c.TimeoutMS > 0 && c.TimeoutMS <= shortTimeout {
 		// Observation only (not part of the statement): does WithTimeout bound
@@ -1177,6 +1354,7 @@ func classify(c Case, ob observation) vk.Info {
 	}
 	for i := 1; i < len(es); i++ {
 		info.ClassIf(es[i-1].Outcome == oNetErr, "retried_after_connection_teardown")
+		info.ClassIf(es[i-1].Outcome == oTempNetErr, c.Exporter+":retried_after_temporary_network_error")
 		info.ClassIf(es[i-1].Outcome == oAbandoned, "retried_after_own_timeout")
 	}
 	return info
@@ -1187,6 +1365,14 @@ func run(c Case) ([]vk.Violation, vk.Info) {
 		var info vk.Info
 		info.Class("malformed_case_skipped")
 		return nil, info
+	}
+	if c.Interfere > 0 {
+		// One P: sync.Pool hands an object put back by one goroutine to the next
+		// goroutine asking for it (per-P private slot), which is what makes
+		// cross-export sharing of pooled buffers observable instead of a matter
+		// of which P the interfering export happens to run on.
+		prev := runtime.GOMAXPROCS(1)
+		defer runtime.GOMAXPROCS(prev)
 	}
 	ob := execute(c)
 	vs := evaluate(c, ob)
@@ -1302,13 +1488,13 @@ var known = map[string]func(Case, vk.Violation) bool{
 }
 
 const ruleCommon = "one export per case against a scripted loopback collector; script of 1..7 answers, retry config {disabled, 1ms/5ms backoff with MaxElapsedTime 0/20ms/500ms/5s, 400ms backoff, 10min backoff}, " +
-	"exporter timeout {default, 15s/30s, 100/200ms with held requests}, gzip on/off, plan {none, ctx cancelled before, cancel while attempt K is held, cancel / Shutdown after answer K, and for the two trace exporters Shutdown(200/300 ms deadline) during a 10 min back-off wait / a held attempt}; " +
+	"exporter timeout {default, 15s/30s, 100/200ms with held requests}, gzip on/off, WithHeaders with 0/1/2 pairs, optionally 1-2 interfering exports of another payload through a second exporter instance while the export waits for its retry, plan {none, ctx cancelled before, cancel while attempt K is held, cancel / Shutdown after answer K, and for the two trace exporters Shutdown(200/300 ms deadline) during a 10 min back-off wait / a held attempt}; " +
 	"non-trivial = the script contains a retryable answer followed by something; distinct = distinct case encodings"
 
 func TestHTTPRetry(t *testing.T) {
 	vk.Run(t, vk.Spec[Case]{
 		Property: "C14", Check: "http_retry",
-		Rule: "otlptracehttp / otlpmetrichttp / otlploghttp: answers over {200, 200+partial success, 400, 401, 404, 408, 429, 500, 502, 503, 504, connection closed (FIN/RST), slow, held} x Retry-After {absent, 0, 1, 2, garbage}; " +
+		Rule: "otlptracehttp / otlpmetrichttp / otlploghttp: answers over {200, 200+partial success, 400, 401, 404, 408, 429, 500, 502, 503, 504, connection closed (FIN/RST), slow, held, client-side temporary / non-temporary network error injected through WithProxy} x Retry-After {absent, 0, 1, 2, garbage}; " +
 			"Retry-After >= 1 on a retryable answer in 1/16 of the cases (~25 per exporter in quick) (each costs >= 1 s once the unit defect is repaired); " + ruleCommon,
 		Quick: 150, Thorough: 1800,
 		Gen: genCase(false), Run: run, Known: known,
